@@ -58,6 +58,18 @@ def iterPass (sp : List (List Nat) → S) (steps : List Step) (m : List (List Na
   if steps.length == 1 then m
   else iterFinal ScoreOps.lt (sp m) (sp (candidate steps m)) m (candidate steps m)
 
+/-- `check='immediate'`: after every index set the matrix is scored with `sp0` (`sum_of_pairs()` with its DEFAULT gap
+weight, not the call's); a lower score puts the matrix saved at the start of the pass back, otherwise the score to beat
+is raised.  State = (current matrix, `sop`). -/
+def immStep (sp0 : List (List Nat) → S) (saved : List (List Nat)) (st : List (List Nat) × S) (f : Step) :
+    List (List Nat) × S :=
+  let new := f st.1
+  if ScoreOps.lt (sp0 new) st.2 then (saved, st.2) else (new, sp0 new)
+
+/-- one `_iter(idx_list, check='immediate')` pass: `sp` scores the matrix at the start (the call's gap weight) -/
+def iterImmediate (sp sp0 : List (List Nat) → S) (steps : List Step) (m : List (List Nat)) : List (List Nat) :=
+  if steps.length == 1 then m else (steps.foldl (immStep sp0 m) (m, sp m)).1
+
 /-- a refinement call = at most one pass (`none`: the call returned before `_iter`) with the score function of its gap weight -/
 structure Call (S : Type) where
   sp : List (List Nat) → S
